@@ -852,3 +852,45 @@ func genChain(t *rapid.T, cfg GenCfg) *Spec {
 	sp.Out = cur
 	return sp
 }
+
+// GenWide builds a fan-in of generated width (1..8) into END: width producers fed by START whose
+// outputs are merged by key (graph modes), mapped into fields of END's input (workflow), or the
+// nodes of one parallel stage (chain).  Used to reach width-dependent code in stream merging.
+func GenWide(t *rapid.T, cfg GenCfg) *Spec {
+	mode := []string{"pregel", "dag", "workflow", "chain"}[rapid.IntRange(0, 3).Draw(t, "wideMode")]
+	width := rapid.IntRange(1, 8).Draw(t, "width")
+	paras := []string{"I", "IS", "IT", "ISCT", "S", "T", "C", "SC"}
+	lambda := func(key string) NodeSpec {
+		n := NodeSpec{Key: key, Kind: "lambda", In: "S", Chunks: rapid.IntRange(1, 4).Draw(t, "chunks")}
+		if cfg.Paradigms {
+			n.Para = paras[rapid.IntRange(0, len(paras)-1).Draw(t, "para")]
+		}
+		return n
+	}
+	sp := &Spec{Mode: mode, In: "S", Out: "M"}
+	if mode == "chain" {
+		if width < 2 {
+			width = 2
+		}
+		st := Stage{Kind: "parallel"}
+		for i := 0; i < width; i++ {
+			n := lambda(fmt.Sprintf("c%d", i))
+			n.OutputKey = n.Key
+			st.Nodes = append(st.Nodes, n)
+		}
+		sp.Stages = append(sp.Stages, st)
+		return sp
+	}
+	for i := 0; i < width; i++ {
+		n := lambda(fmt.Sprintf("w%d", i))
+		e := Edge{From: n.Key, To: End}
+		if mode == "workflow" {
+			e.ToKey = n.Key
+		} else {
+			n.OutputKey = n.Key
+		}
+		sp.Nodes = append(sp.Nodes, n)
+		sp.Edges = append(sp.Edges, Edge{From: Start, To: n.Key}, e)
+	}
+	return sp
+}
